@@ -362,6 +362,15 @@ def save_score_midi(
 
     events = defaultdict(lambda: defaultdict(list))
     meta_events = defaultdict(lambda: defaultdict(list))
+    # note events are collected per (part_group, part, voice) key in three
+    # groups, so that at equal ticks a track gets the note offs first, then
+    # zero-length (grace) notes as adjacent on/off pairs, then the note ons.
+    # Otherwise, when several keys share a track and channel, a note starting
+    # where another note of the same pitch ends may be written before that
+    # note's note off (and both notes are lost when reading the file).
+    note_offs = defaultdict(lambda: defaultdict(list))
+    grace_notes = defaultdict(lambda: defaultdict(list))
+    note_ons = defaultdict(lambda: defaultdict(list))
 
     event_keys = OrderedDict()
     tempos = {}
@@ -488,23 +497,25 @@ def save_score_midi(
             # key is a tuple (part_group, part, voice) that will be
             # converted into a (track, channel) pair.
             key = (pg, part, note.voice)
-            events[key][to_ppq(note.start.t)].append(
-                Message("note_on", note=note.midi_pitch, velocity=velocity)
-            )
-            events[key][to_ppq(note.start.t + note.duration_tied)].append(
-                Message("note_off", note=note.midi_pitch)
-            )
+            t_on = to_ppq(note.start.t)
+            t_off = to_ppq(note.start.t + note.duration_tied)
+            msg_on = Message("note_on", note=note.midi_pitch, velocity=velocity)
+            msg_off = Message("note_off", note=note.midi_pitch)
+            if t_off > t_on:
+                note_ons[key][t_on].append(msg_on)
+                note_offs[key][t_off].append(msg_off)
+            else:
+                grace_notes[key][t_on].extend([msg_on, msg_off])
             event_keys[key] = True
 
     tr_ch_map = map_to_track_channel(list(event_keys.keys()), part_voice_assign_mode)
 
     # replace original event keys (partgroup, part, voice) by (track, ch) keys:
-    for key in list(events.keys()):
-        evs_by_time = events[key]
-        del events[key]
-        tr, ch = tr_ch_map[key]
-        for t, evs in evs_by_time.items():
-            events[tr][t].extend((ev.copy(channel=ch) for ev in evs))
+    for note_events in (note_offs, grace_notes, note_ons):
+        for key, evs_by_time in note_events.items():
+            tr, ch = tr_ch_map[key]
+            for t, evs in evs_by_time.items():
+                events[tr][t].extend((ev.copy(channel=ch) for ev in evs))
 
     # figure out in which tracks to replicate the time/key signatures of each part
     part_track_map = partition(lambda x: x[0][1], tr_ch_map.items())
